@@ -510,6 +510,46 @@ def r23_13(ctx, rep):
                "the function can return a selection without having looked at the subscripts", path=cfg.describe(w) if w else "")
 
 
+@SPEC.rule(
+    "R23.14",
+    "the subscripts a loop index expression produces are the values it has, for every iteration (R12.6 evaluated for this property): computed "
+    "from the first two iterations and continued linearly, x[i*i] for i in 1:3 stays inside an array it actually leaves",
+)
+def r23_14(ctx, rep):
+    from ..engine import run_as
+    from .c12 import r12_6
+    run_as(r12_6, "R23.14", ctx, rep)
+
+
+@SPEC.rule(
+    "R23.15",
+    "both sides of every equation are translated: every path through Generator.exitEquation to a normal return passes self.get_mx of the "
+    "left-hand side and of the right-hand side — subscripts are range-checked only when get_mx reaches the reference, so an equation that is "
+    "given an empty residual up front (`the loop has no iterations`) keeps v[5] on Real v[3] unseen",
+)
+def r23_15(ctx, rep):
+    R = "R23.15"
+    fn = ctx.func(GEN, "Generator.exitEquation", R)
+    site = GEN + ":Generator.exitEquation"
+    cfg = CFG(fn, R)
+    for side in ("left", "right"):
+        from ..pyutil import inlined
+
+        def res(e):
+            return norm(inlined(e, fn.body))
+
+        nodes = {x.id for x in cfg.nodes if x.ast is not None and x.kind in ("stmt", "test") and not isinstance(x.ast, (ast.If, ast.For, ast.While, ast.Try, ast.With, ast.FunctionDef))
+                 and any(isinstance(c.func, ast.Attribute) and c.func.attr == "get_mx" and c.args and (
+                     res(c.args[0]) == "tree." + side or (isinstance(c.args[0], ast.Name) and any(
+                         isinstance(g, ast.comprehension) and res(g.iter) == "tree." + side for g in ast.walk(x.ast)))) for c in calls(x.ast))}
+        if not nodes:
+            raise MechanismMissing(R, "the translation of tree.%s was not found in exitEquation" % side)
+        w = cfg.must_pass(cfg.entry, cfg.exit, nodes)
+        rep.ob(R, site, "the %s-hand side is translated on every path" % side, w is None,
+               "exitEquation can return without get_mx(tree.%s): the references on that side are never resolved, and their subscripts never checked" % side,
+               path=cfg.describe(w) if w else "")
+
+
 # -- seeded variants ---------------------------------------------------------
 from ._mut import replace_in_func  # noqa: E402
 
